@@ -690,6 +690,47 @@ fn pool_checks(threads: usize, ids: &[u16], other: &[u16], hb: u8) -> Result<u64
         if sorted_u16(f.keys().map(|k| k.id).collect()) != want {
             return Err(ctx("from_par_iter"));
         }
+        // repeated keys with different payloads: parallel extend / collect must agree with the
+        // sequential ones (last value wins for maps, first element is kept for sets)
+        if ids.len() >= 3 {
+            let dup: Vec<(u16, u16)> = ids.iter().map(|&i| (i % 7, i)).chain(ids.iter().rev().map(|&i| (i % 5, i + 1))).collect();
+            let mut pe = GMap::with_hasher(ModBuild(hb));
+            pe.par_extend(dup.par_iter().map(|&(k, v)| (GEl::new(k), GEl::new(v))));
+            let mut se = GMap::with_hasher(ModBuild(hb));
+            se.extend(dup.iter().map(|&(k, v)| (GEl::new(k), GEl::new(v))));
+            let pf: GMap = dup.par_iter().map(|&(k, v)| (GEl::new(k), GEl::new(v))).collect();
+            let sf: GMap = dup.iter().map(|&(k, v)| (GEl::new(k), GEl::new(v))).collect();
+            let vals = |m: &GMap| {
+                let mut v: Vec<(u16, u16)> = m.iter().map(|(k, v)| (k.id, v.id)).collect();
+                v.sort_unstable();
+                v
+            };
+            if vals(&pe) != vals(&se) {
+                return Err(format!("{}: par_extend with repeated keys gives {:?}, sequential extend {:?}", ctx("par_extend"), vals(&pe), vals(&se)));
+            }
+            if vals(&pf) != vals(&sf) {
+                return Err(format!("{}: from_par_iter with repeated keys gives {:?}, sequential collect {:?}", ctx("from_par_iter"), vals(&pf), vals(&sf)));
+            }
+            // sets: elements equal by id but distinguishable by serial; the first occurrence must be the one stored
+            let keys: Vec<u16> = dup.iter().map(|d| d.0).collect();
+            let owned: Vec<GEl> = keys.iter().map(|&k| GEl::new(k)).collect();
+            let firsts: Vec<(u16, u32)> = {
+                let mut seen = Vec::new();
+                for e in &owned {
+                    if !seen.iter().any(|x: &(u16, u32)| x.0 == e.id) {
+                        seen.push((e.id, e.serial));
+                    }
+                }
+                seen.sort_unstable();
+                seen
+            };
+            let ps: GSet = owned.into_par_iter().collect();
+            let mut got: Vec<(u16, u32)> = ps.iter().map(|e| (e.id, e.serial)).collect();
+            got.sort_unstable();
+            if got != firsts {
+                return Err(format!("{}: from_par_iter into a set stored {:?}, sequential collect would keep the first occurrences {:?}", ctx("set from_par_iter"), got, firsts));
+            }
+        }
         // par_drain: everything delivered once, table empty and usable
         let cap = m.capacity();
         let got = sorted_u16(m.par_drain().map(|(k, _)| k.id).collect());
